@@ -1128,6 +1128,33 @@ class Engine:
                 return r
         if is_num(a) and is_num(b):
             return self.num_binop(op, a, b, st, node)
+        if isinstance(op, ast.Mult) and a.k == 'list' and a.items and b.k == 'int' \
+                and not z3.is_int_value(z3.simplify(b.z)) and all(x.k == 'any' for x in a.items):
+            items = a.items
+            m = len(items)
+            k = b.z
+
+            def get(eng, i, st_, _items=items, _m=m):
+                r = _items[-1].z
+                for j in range(_m - 2, -1, -1):
+                    r = z3.If(i % _m == j, _items[j].z, r)
+                return V('any', r)
+            return [(st, V('seq', extra={'len': z3.If(k > 0, k * m, 0), 'get': get}))]
+        if isinstance(op, ast.Mult) and a.k in ('dyn', 'seq') and b.k == 'int':
+            sa = self.as_seq(a, st)
+            l, k = sa.extra['len'], b.z
+            ln = z3.If(k > 0, l * k, 0)
+            return [(st, V('seq', extra={'len': ln, 'get': (
+                lambda eng, i, st_, _s=sa, _l=l: _s.extra['get'](eng, i % _l, st_))}))]
+        if isinstance(op, ast.Add) and a.k in ('dyn', 'seq') and b.k in ('dyn', 'seq'):
+            sa, sb = self.as_seq(a, st), self.as_seq(b, st)
+            la = sa.extra['len']
+
+            def get(eng, i, st_, _a=sa, _b=sb, _la=la):
+                x = _a.extra['get'](eng, i, st_)
+                y = _b.extra['get'](eng, i - _la, st_)
+                return V('any', z3.If(i < _la, x.z, y.z))
+            return [(st, V('seq', extra={'len': la + sb.extra['len'], 'get': get}))]
         if (a.k == 'obj' and (is_num(b) or b.k == 'obj')) or (b.k == 'obj' and is_num(a)):
             # arithmetic on an opaque value stays opaque
             return [(st, V('obj', oid='arith!%d' % next(self.counter)))]
@@ -1286,6 +1313,14 @@ class Engine:
                     self.floor_terms.append(q)
                     outs.append((st1, vreal(x - y * z3.ToReal(q))))
         return outs
+
+    def as_seq(self, v, st):
+        if v.k == 'seq':
+            return v
+        o = v.z
+        ln = VV.any_len(o)
+        st.pc.append(ln >= 0)
+        return V('seq', extra={'len': ln, 'get': (lambda eng, i, st_, _o=o: V('any', VV.any_item(_o, i)))})
 
     def bytes_len(self, v):
         if v.py is not None:
@@ -1879,6 +1914,19 @@ class Engine:
             return [(st, V('seq', extra={
                 'len': z3.If(ln - k > 0, ln - k, 0), 'base': (o, k),
                 'get': (lambda eng, i, st_, _o=o, _k=k: V('any', VV.any_item(_o, i + _k)))}))]
+        if obj.k in ('dyn', 'seq') and sl.step is None and sl.lower is None and sl.upper is not None:
+            outs = []
+            for st1, m in self.eval(sl.upper, st):
+                if isinstance(m, Raised):
+                    outs.append((st1, m))
+                    continue
+                if m.k != 'int':
+                    raise Unsupported(node, 'slice bound')
+                sq = self.as_seq(obj, st1)
+                l = sq.extra['len']
+                mm = z3.If(m.z < 0, z3.If(m.z + l > 0, m.z + l, 0), z3.If(m.z < l, m.z, l))
+                outs.append((st1, V('seq', extra={'len': mm, 'get': sq.extra['get']})))
+            return outs
         if obj.k == 'bytes' and sl.step is None:
             L = self.bytes_len(obj)
             res = [(st, [])]
